@@ -47,6 +47,7 @@ func traceKey(s *vrt.Sched) string {
 // ExploreScenario enumerates every schedule within the bound, judges each execution and reports coverage.
 func ExploreScenario(c *fw.Ctx, prop string, sc *Scenario) {
 	rechecks := 0
+	violated := false
 	var lastOutcome string
 	st := vrt.Explore(sc.Bound, func(prefix []int) *vrt.Sched {
 		s, sig, desc, outcome := runOnce(sc, prefix)
@@ -83,6 +84,7 @@ func ExploreScenario(c *fw.Ctx, prop string, sc *Scenario) {
 				c.Inconclusive("harness: violation " + sig + " did not reproduce 5/5 under the same schedule")
 			} else {
 				c.Violate(sig, fmt.Sprintf("scenario %s, schedule %v (%d preemptions): %s", sc.Name, s.Choices, s.PreemptionsBefore(len(s.Trace)), desc), len(s.Choices)+100*s.PreemptionsBefore(len(s.Trace)), schedCase{Scenario: sc.Name, Choices: s.Choices}, "")
+				violated = true
 			}
 		} else {
 			c.Count("traces_validated_against_impl", 1)
@@ -91,7 +93,9 @@ func ExploreScenario(c *fw.Ctx, prop string, sc *Scenario) {
 	}, func(s *vrt.Sched) bool {
 		c.Count("states", 1) // one complete execution (schedule) explored
 		c.Outcome(sc.Name + ":" + lastOutcome)
-		return !c.Expired() && len(c.R.Inconclusive) == 0
+		// a scenario is abandoned after its first confirmed violation: the DFS order makes it a minimal-prefix
+		// witness, and a broken lock would otherwise multiply the schedule space a thousandfold
+		return !violated && !c.Expired() && len(c.R.Inconclusive) == 0
 	})
 	c.Count("executions", st.Executions)
 	if int64(st.MaxPoints) > c.R.Counters["max_points_per_execution"] {
@@ -104,7 +108,7 @@ func ExploreScenario(c *fw.Ctx, prop string, sc *Scenario) {
 		c.Inconclusive("harness: schedule replay diverged: " + d)
 	}
 	c.R.Bounds["scenario:"+sc.Name] = fmt.Sprintf("executions=%d max_points=%d preemption_bound=%d bound_cut_something=%v deadlocks=%d", st.Executions, st.MaxPoints, sc.Bound, st.BoundReached, st.Deadlocks)
-	if st.Stopped && c.R.Exhaustive {
+	if st.Stopped && !violated && c.R.Exhaustive {
 		c.R.Exhaustive = false
 		c.R.Notes = append(c.R.Notes, "exploration of scenario "+sc.Name+" stopped early")
 	}
